@@ -335,6 +335,16 @@ mut("C08 L matrix accumulates only edges with a positive signature product", [(S
 mut("C08 L matrix skips the mirrored entry when the contribution is negative", [(SAM, "                    temp_l_matrix[(j, i)] += &add;", "                    if signature_matrix[e][i] * signature_matrix[e][j] > 0 {\n                        temp_l_matrix[(j, i)] += &add;\n                    }")], C08="C08-a")
 
 
+# ---- search loops (engine: `for x in xs { if p(x) { return true } } false` is ∃x p(x)) ----
+mut("N: any() written as a search loop in a helper", [
+    (PRE, "                component\n                    .contains_edges()\n                    .any(|i| self.topology[i].contains_vertex(v))", "                self.component_touches(component, v)"),
+    (PRE, "    /// Get all connected components of a graph, used to compute loop number of possible disconnected graph", "    fn component_touches(&self, component: &TropicalSubGraphId, v: u8) -> bool {\n        for i in component.contains_edges() {\n            if self.topology[i].contains_vertex(v) {\n                return true;\n            }\n        }\n        false\n    }\n\n    /// Get all connected components of a graph, used to compute loop number of possible disconnected graph"),
+], C03=None, C05=None, C07=None)
+mut("C03 search loop that answers true when NO edge touches the vertex", [
+    (PRE, "                component\n                    .contains_edges()\n                    .any(|i| self.topology[i].contains_vertex(v))", "                self.component_touches(component, v)"),
+    (PRE, "    /// Get all connected components of a graph, used to compute loop number of possible disconnected graph", "    fn component_touches(&self, component: &TropicalSubGraphId, v: u8) -> bool {\n        for i in component.contains_edges() {\n            if self.topology[i].contains_vertex(v) {\n                return false;\n            }\n        }\n        true\n    }\n\n    /// Get all connected components of a graph, used to compute loop number of possible disconnected graph"),
+], C03="C03-e")
+
 # ---- composite properties (C01, C02): expectations derived mechanically from the owners' rows ----
 # A row that makes a selected owner clause fire must make the composite fire under the restated id; a row on which an owner must stay
 # silent must leave the composite silent (its clauses are a subset of the owners').
